@@ -79,6 +79,13 @@ func compareMultisets(got, want []string) (string, string) {
 	return "", ""
 }
 
+func preOf(pre [][][]byte, d int) [][]byte {
+	if d < len(pre) {
+		return pre[d]
+	}
+	return nil
+}
+
 type c13Handle struct {
 	kind string
 	name string
@@ -139,6 +146,7 @@ func c13Run(kind string, ndest, queue int, alphabet []string, hist []int) (strin
 	var want []string
 	var rcl, rdet string
 	var tMin, tMax int64
+	var pre [][][]byte
 	cl, det, leaked := controlledCaseLeaks(1, func() {
 		tMin = rt.NowNanos()
 		r, err := m3.NewReporter(m3.Options{HostPorts: addrs, Service: "svc", Env: "test", CommonTags: map[string]string{"ck": "cv"}, Protocol: m3Proto(kind), MaxQueueSize: queue})
@@ -209,7 +217,9 @@ func c13Run(kind string, ndest, queue int, alphabet []string, hist []int) (strin
 		tMax = rt.NowNanos()
 		if err := r.Close(); err != nil {
 			rcl, rdet = "close-error", err.Error()
+			return
 		}
+		pre, rcl, rdet = closeBarrier(kind, sinks, len(want))
 	})
 	if cl != "" {
 		return cl, det, steps
@@ -237,7 +247,7 @@ func c13Run(kind string, ndest, queue int, alphabet []string, hist []int) (strin
 				}
 			}
 			return n >= nwant
-		})
+		}, preOf(pre, d)...)
 		got, cl, det := m3Collect(kind, dgs, tMin, tMax)
 		if cl != "" {
 			return cl, fmt.Sprintf("[%s, %d destinations, queue %d] destination %d: %s", kind, ndest, queue, d, det), steps
